@@ -275,9 +275,29 @@ def apply_renames(lines, mp):
     return [rx.sub(lambda m: mp[m.group(1)], l) for l in lines]
 
 
-def splice(ctext, comp):
+def add_loop_locals(clauses, locals_):
+    """every local the loop assigns directly is part of the loop's assigns clause (see cxx2c.loop_locals)"""
+    if not locals_:
+        return clauses
+    out = []
+    done = False
+    for c in clauses:
+        m = re.match(r'^(\s*(?:/\*.*?\*/\s*)?__CPROVER_assigns\()(.*)(\)\s*)$', c)
+        if m and not done:
+            have = set(re.findall(r'(?<![\w.>])([A-Za-z_]\w*)(?![\w(.\[-])', m.group(2)))
+            extra = [l for l in locals_ if l not in have]
+            inner = m.group(2).strip()
+            c = m.group(1) + ', '.join(([inner] if inner else []) + extra) + m.group(3)
+            done = True
+        out.append(c)
+    return out
+
+
+def splice(ctext, comp, drop=()):
     """insert contracts at the /*@CONTRACT f*/ and /*@LOOP f n*/ markers.
-    returns (text, tagmap) where tagmap maps output line number -> list of tags"""
+    returns (text, tagmap) where tagmap maps output line number -> list of tags.
+    drop: functions whose contract no longer compiles against the current code (e.g. a parameter it names is gone): their
+    contracts and loop contracts are left out and reported as missing (undecided), the other contracts are still checked"""
     out = []
     renames = parameter_renames(ctext, comp)
     tagmap = {}
@@ -287,7 +307,7 @@ def splice(ctext, comp):
         m = re.match(r'^\s*/\*@CONTRACT (\w+)\*/\s*$', ln)
         if m:
             f = m.group(1)
-            if f in comp.functions:
+            if f in comp.functions and f not in drop:
                 used_f.add(f)
                 for c in apply_renames(comp.functions[f], renames.get(f)):
                     out.append(c)
@@ -295,12 +315,12 @@ def splice(ctext, comp):
                     if t:
                         tagmap[len(out)] = re.findall(r'\[([^\]]+)\]', t.group(1))
             continue
-        m = re.match(r'^\s*/\*@LOOP (\w+) (\d+)\*/\s*$', ln)
+        m = re.match(r'^\s*/\*@LOOP (\w+) (\d+)(?: locals: ([\w ]+))?\*/\s*$', ln)
         if m:
             key = (m.group(1), int(m.group(2)))
-            if key in comp.loops:
+            if key in comp.loops and key[0] not in drop:
                 used_l.add(key)
-                for c in apply_renames(comp.loops[key], renames.get(key[0])):
+                for c in add_loop_locals(apply_renames(comp.loops[key], renames.get(key[0])), (m.group(3) or '').split()):
                     out.append(c)
             continue
         out.append(ln)
@@ -326,7 +346,7 @@ def splice(ctext, comp):
         sig = m.group(1).split('\n')[0].replace(f + '(', new + '(', 1)
         blines = []
         for l in m.group(2).split('\n'):
-            lm = re.match(r'^\s*/\*@LOOP (\w+) (\d+)\*/', l)
+            lm = re.match(r'^\s*/\*@LOOP (\w+) (\d+)(?: locals: [\w ]+)?\*/', l)
             if lm:
                 if keep_loops:
                     blines.extend(comp.loops.get((lm.group(1), int(lm.group(2))), []))
